@@ -178,7 +178,16 @@ theorem pParams_lits (ps : List PLit) (hne : ps ≠ []) (r : List Tok) :
 /-! ## one statement -/
 
 /-- the statement the writer's line is -/
-def POp.stmt (o : POp) : Stmt V := .call (.gate o.name (o.params.map PLit.qe) (o.loc.map qArg))
+def POp.stmt (o : POp) : Stmt V :=
+  if o.name = "barrier" then .barrier (o.loc.map qArg)
+  else if o.name = "reset" then .reset (qArg (o.loc.headD 0))
+  else .call (.gate o.name (o.params.map PLit.qe) (o.loc.map qArg))
+
+/-- the three kinds of lines the writer emits through `Gate.get_qasm` -/
+def POp.Shape (o : POp) : Prop :=
+  (o.name = "barrier" ∧ o.params = [] ∧ o.loc ≠ []) ∨
+  (o.name = "reset" ∧ o.params = [] ∧ ∃ q, o.loc = [q]) ∨
+  (keywords.contains o.name = false ∧ o.loc ≠ [])
 
 theorem locToks_length (q : Nat) : (locToks q).length = 4 := rfl
 
@@ -239,9 +248,15 @@ theorem pGateRest_params (name : String) (ps : List PLit) (hps : ps ≠ []) (loc
   rw [harg _ (by simp only [List.length_append, List.length_cons]; omega)]
   rfl
 
-theorem pStmt_op (o : POp) (hne : o.loc ≠ []) (rest : List Tok) :
+theorem pStmt_gate (o : POp) (hkw : keywords.contains o.name = false) (hne : o.loc ≠ [])
+    (rest : List Tok) :
     (pStmt (opToks o ++ rest) : Option (Stmt V × List Tok)) = some (o.stmt, rest) := by
-  unfold opToks POp.stmt
+  have hnb : o.name ≠ "barrier" := by
+    intro h; rw [h] at hkw; exact absurd hkw (by decide)
+  have hnr : o.name ≠ "reset" := by
+    intro h; rw [h] at hkw; exact absurd hkw (by decide)
+  unfold opToks POp.stmt nameTok
+  simp only [hkw, Bool.false_eq_true, if_false, hnb, hnr]
   by_cases hp : o.params = []
   · have h := pGateRest_locs (V := V) o.name o.loc hne rest
     simp only [hp, List.isEmpty_nil, if_true, List.nil_append, List.cons_append,
@@ -258,14 +273,55 @@ theorem pStmt_op (o : POp) (hne : o.loc ≠ []) (rest : List Tok) :
     simp only [pStmt, pQop, pCall]
     rw [h]; rfl
 
+theorem pStmt_op (o : POp) (hs : o.Shape) (rest : List Tok) :
+    (pStmt (opToks o ++ rest) : Option (Stmt V × List Tok)) = some (o.stmt, rest) := by
+  rcases hs with ⟨hn, hp, hne⟩ | ⟨hn, hp, q, hq⟩ | ⟨hkw, hne⟩
+  · -- barrier q[..], …;
+    have hlen := intersperse_locs_length o.loc
+    have harg := pArgList_locs o.loc hne
+      ((intersperseTok (.sym ",") (o.loc.map locToks) ++ .sym ";" :: rest).length + 1)
+      (by simp only [List.length_append, List.length_cons]; omega) (.sym ";" :: rest) (by simp)
+    unfold opToks POp.stmt nameTok
+    have hk : keywords.contains "barrier" = true := by decide
+    simp only [hn, hk, if_true, hp, List.isEmpty_nil, List.nil_append, List.cons_append,
+      List.append_assoc]
+    simp only [pStmt, harg]
+  · -- reset q[i];
+    unfold opToks POp.stmt nameTok
+    have hk : keywords.contains "reset" = true := by decide
+    have hne : ("reset" : String) ≠ "barrier" := by decide
+    have harg := pArg_loc q (.sym ";" :: rest)
+    simp only [hn, hk, if_true, hp, List.isEmpty_nil, List.nil_append, List.cons_append,
+      List.append_assoc, hq, List.map_cons, List.map_nil, intersperseTok, hne, if_false,
+      List.headD_cons]
+    simp [pStmt, pQop, harg]
+  · exact pStmt_gate o hkw hne rest
+
 /-! ## elaboration of one statement -/
 
 /-- what the reader must rebuild from the writer's line `o`, for a table `table` -/
 def POp.Reads (A : Arith V) (table : List BuiltinDef) (o : POp) (op : Op V) : Prop :=
-  o.loc ≠ [] ∧ nodup o.loc = true ∧
-  ∃ b vs, lookupBuiltin table o.name = some b ∧
-    o.params.mapM (fun p => evalQ A (PLit.qe p)) = some vs ∧
-    vs.length = b.np ∧ o.loc.length = b.nv ∧ mkPrim A b o.loc vs = some op
+  (o.name = "barrier" ∧ o.params = [] ∧ o.loc ≠ [] ∧ nodup o.loc = true ∧
+    op = .barrier o.loc) ∨
+  (o.name = "reset" ∧ o.params = [] ∧ ∃ q, o.loc = [q] ∧ op = .reset q) ∨
+  (keywords.contains o.name = false ∧ o.loc ≠ [] ∧ nodup o.loc = true ∧
+    ∃ b vs, lookupBuiltin table o.name = some b ∧
+      o.params.mapM (fun p => evalQ A (PLit.qe p)) = some vs ∧
+      vs.length = b.np ∧ o.loc.length = b.nv ∧ mkPrim A b o.loc vs = some op)
+
+theorem POp.Reads.shape {A : Arith V} {table : List BuiltinDef} {o : POp} {op : Op V}
+    (h : o.Reads A table op) : o.Shape := by
+  rcases h with ⟨a, b, c, _, _⟩ | ⟨a, b, q, c, _⟩ | ⟨a, b, _⟩
+  · exact Or.inl ⟨a, b, c⟩
+  · exact Or.inr (Or.inl ⟨a, b, q, c⟩)
+  · exact Or.inr (Or.inr ⟨a, b⟩)
+
+theorem POp.Reads.loc {A : Arith V} {table : List BuiltinDef} {o : POp} {op : Op V}
+    (h : o.Reads A table op) : op.loc = o.loc ∧ o.loc ≠ [] := by
+  rcases h with ⟨_, _, c, _, rfl⟩ | ⟨_, _, q, c, rfl⟩ | ⟨_, c, _, b, vs, _, _, _, _, hmk⟩
+  · exact ⟨rfl, c⟩
+  · exact ⟨by simp [Op.loc, c], by simp [c]⟩
+  · exact ⟨mkPrim_loc A b o.loc vs _ hmk, c⟩
 
 /-- `Reads` for every line of a program -/
 inductive ReadsAll (A : Arith V) (table : List BuiltinDef) : List POp → List (Op V) → Prop where
@@ -300,18 +356,28 @@ theorem anylistIndices_q (n : Nat) (loc : List Nat) :
 theorem elabStmt_op (A : Arith V) (s : St V) (n : Nat) (hq : s.qregs = [("q", n)]) (o : POp)
     (op : Op V) (h : o.Reads A s.table op) :
     elabStmt A s o.stmt = some { s with ops := op :: s.ops } := by
-  obtain ⟨_, hnd, b, vs, hb, hvs, hlen, hl, hop⟩ := h
-  have hev : evalParams A (o.params.map PLit.qe) = some vs := by
-    rw [evalParams, List.mapM_map]; exact hvs
-  simp only [POp.stmt, elabStmt, elabCall, hev, hq, anylistIndices_q, hnd, St.lookup, hb,
-    Bool.not_true, Bool.false_eq_true, if_false, GDef.np, GDef.nv, hlen, hl, beq_self_eq_true,
-    Bool.and_self, if_true, buildOp, hop, Option.map_some]
+  rcases h with ⟨hn, _, _, hnd, rfl⟩ | ⟨hn, _, q, hl, rfl⟩ |
+    ⟨hkw, _, hnd, b, vs, hb, hvs, hlen, hl, hop⟩
+  · simp only [POp.stmt, hn, if_true, elabStmt, hq, anylistIndices_q, hnd]
+  · have hne : ("reset" : String) ≠ "barrier" := by decide
+    simp only [POp.stmt, hn, hne, if_false, if_true, hl, List.headD_cons, elabStmt, elabReset,
+      qArg, hq, argIndices, firstIndex, Option.map_some, Nat.zero_add, List.map_cons,
+      List.map_nil, List.reverse_cons, List.reverse_nil, List.nil_append, List.cons_append]
+  · have hnb : o.name ≠ "barrier" := by
+      intro h; rw [h] at hkw; exact absurd hkw (by decide)
+    have hnr : o.name ≠ "reset" := by
+      intro h; rw [h] at hkw; exact absurd hkw (by decide)
+    have hev : evalParams A (o.params.map PLit.qe) = some vs := by
+      rw [evalParams, List.mapM_map]; exact hvs
+    simp only [POp.stmt, hnb, hnr, if_false, elabStmt, elabCall, hev, hq, anylistIndices_q, hnd,
+      St.lookup, hb, Bool.not_true, Bool.false_eq_true, GDef.np, GDef.nv, hlen, hl,
+      beq_self_eq_true, Bool.and_self, if_true, buildOp, hop, Option.map_some]
 
 /-! ## the whole program -/
 
-theorem opToks_cons (o : POp) : ∃ t, opToks o = .id o.name :: t := ⟨_, rfl⟩
+theorem opToks_cons (o : POp) : ∃ t0 t, opToks o = t0 :: t := ⟨_, _, rfl⟩
 
-theorem pProgram_ops (ops : List POp) (hne : ∀ o ∈ ops, o.loc ≠ []) (f : Nat)
+theorem pProgram_ops (ops : List POp) (hne : ∀ o ∈ ops, o.Shape) (f : Nat)
     (hf : ops.length + 1 ≤ f) :
     (pProgram f ((ops.map opToks).flatten) : Option (List (Stmt V) × List Tok))
       = some (ops.map POp.stmt, []) := by
@@ -323,7 +389,7 @@ theorem pProgram_ops (ops : List POp) (hne : ∀ o ∈ ops, o.loc ≠ []) (f : N
     obtain ⟨k, rfl⟩ : ∃ k, f = k + 1 := ⟨f - 1, by simp at hf; omega⟩
     have hst := pStmt_op (V := V) o (hne o (by simp)) ((os.map opToks).flatten)
     have ih' := ih (fun o' ho' => hne o' (by simp [ho'])) k (by simp at hf ⊢; omega)
-    obtain ⟨t, ht⟩ := opToks_cons o
+    obtain ⟨t0, t, ht⟩ := opToks_cons o
     simp only [List.map_cons, List.flatten_cons]
     rw [ht] at hst ⊢
     simp only [List.cons_append] at hst ⊢
@@ -351,8 +417,8 @@ theorem forall2_loc (A : Arith V) (table : List BuiltinDef) (ops : List POp) (ex
     intro op' hop'
     simp only [List.mem_cons] at hop'
     rcases hop' with rfl | hmem
-    · obtain ⟨hne, _, b, vs, _, _, _, _, hmk⟩ := hd
-      rw [mkPrim_loc A b o.loc vs _ hmk]
+    · obtain ⟨hl, hne⟩ := hd.loc
+      rw [hl]
       exact ⟨hne, hr o (by simp)⟩
     · exact ih (fun o' ho' => hr o' (by simp [ho'])) op' hmem
 
@@ -371,7 +437,7 @@ theorem decodeToks_programToks (A : Arith V) (table : List BuiltinDef) (n : Nat)
     (ops : List POp) (exp : List (Op V)) (h : ReadsAll A table ops exp)
     (hr : ∀ o ∈ ops, ∀ q ∈ o.loc, q < n) :
     decodeToks A table (programToks n ops) = some ⟨n, [], exp⟩ := by
-  have hne : ∀ o ∈ ops, o.loc ≠ [] := by
+  have hne : ∀ o ∈ ops, o.Shape := by
     intro o ho
     have := h
     clear hr
@@ -380,7 +446,7 @@ theorem decodeToks_programToks (A : Arith V) (table : List BuiltinDef) (n : Nat)
     | @cons o' op' os es hd tl ih =>
       simp only [List.mem_cons] at ho
       rcases ho with rfl | hmem
-      · exact hd.1
+      · exact hd.shape
       · exact ih hmem tl
   have hparse : (parseProgram (programToks n ops) : Option (List (Stmt V)))
       = some (.incl "qelib1.inc" :: .qreg "q" n :: ops.map POp.stmt) := by
@@ -392,7 +458,7 @@ theorem decodeToks_programToks (A : Arith V) (table : List BuiltinDef) (n : Nat)
       induction ops with
       | nil => simp
       | cons o os ih =>
-        obtain ⟨t, ht⟩ := opToks_cons o
+        obtain ⟨t0, t, ht⟩ := opToks_cons o
         simp only [List.map_cons, List.flatten_cons, List.length_append, ht, List.length_cons]
         omega
     exact pProgram_ops ops hne f (by omega)
